@@ -697,3 +697,6 @@ def run(chk, facts, tier, only=None):
         import c14
         # "returns a result": the walks of the type checker over named types stop (visited sets), so check_prog does not recurse forever
         chk._c.include(c14, "C14.R2", "C13.R7", facts) if hasattr(chk, "_c") else chk.include(c14, "C14.R2", "C13.R7", facts)
+        # the printers reached from the checker's error messages have `unreachable!()` arms for method types that are neither a function
+        # nor a name; the grammar keeps everything else out of method position
+        chk.include(c14, "C14.R5", "C13.R8", facts)
